@@ -165,3 +165,7 @@ impl WalBlobReader {
         Ok(u32::from_le_bytes(buf))
     }
 }
+
+#[cfg(kani)]
+#[path = "/verif/units/kani/bitbox_wal_read.rs"]
+mod verif_kani;
